@@ -35,11 +35,13 @@ def gen_sources(tier, seed):
             srcs.append((feat, f"halt\n{m}{operand}\ns halt\n", "stack-mnemonic"))
             srcs.append((feat, f"halt\n{m.upper()}{operand}\ns halt\n", "stack-mnemonic"))
     cases, tags = C04.gen_cases("quick", seed)
-    picked = [(c, t) for c, t in zip(cases, tags) if not t.startswith("random")]
+    picked = [(c, t) for c, t in zip(cases, tags) if not t.startswith("random") and not t.startswith("spelling")]
     rnd.shuffle(picked)
-    for c, t in picked[: (150 if tier == "quick" else 1200)]:
+    dist = [(c, t) for c, t in picked if t.startswith("dist") or t.startswith("case-only")]      # every distance boundary, always
+    rest = [(c, t) for c, t in picked if not (t.startswith("dist") or t.startswith("case-only"))]
+    for c, t in dist + rest[: (150 if tier == "quick" else 1200)]:
         feat, ss = asmcommon.decode_case(c)
-        srcs.append((feat, "halt\n" + ss[0][1], "c04-" + t))
+        srcs.append((feat, ss[0][1], "c04-" + t))      # unchanged: sizes and distances matter; these all terminate
     for i in range(60 if tier == "quick" else 1500):
         feat = rnd.randrange(2)
         items = asmgen.gen_program(rnd, stack=bool(feat), nstmts=rnd.choice([1, 3, 6]), want_valid=rnd.random() < 0.7)
@@ -67,8 +69,10 @@ def correspondence(ctx, violations, known_hits):
             fl = ["-f", "stack"] if feat else []
             chk = clicommon.run_cli(exe, ["check", "p.asm"] + fl, sub)
             cmp_ = clicommon.run_cli(exe, ["compile", "p.asm", "o.lc3"] + fl, sub)
-            run_ = clicommon.run_cli(exe, ["run", "p.asm", "--minimal"] + fl, sub, stdin=b"")
-            return chk[0], cmp_[0], run_[0], chk[2][-200:]
+            run_ = clicommon.run_cli(exe, ["run", "p.asm", "--minimal"] + fl, sub, stdin=b"", timeout=5)
+            # `run` got past assembly iff it announced the run (the program's own exit status is not the verdict)
+            run_rc = 0 if clicommon.RUNNING.encode() in run_[1] else (run_[0] if run_[0] not in (0, -9) else 1)
+            return chk[0], cmp_[0], run_rc, chk[2][-200:]
         return run
 
     res = clicommon.parallel([job(i) for i in range(len(srcs))])
